@@ -78,6 +78,17 @@ CLAIMED = {
    note='Trusted: Coq kernel; extraction + driver; Python adapters dotdict<->AST (props/codec_common.py); the reference codec is written from the layout tables and shares '
         'no code with cpppo.  Not modelled: identity/communications item contents, STRUCT/UDT data, generic service codes, zero-element payloads (cpppo cannot parse them).',
    technique='Coq proof by construction (verified parser/printer combinators) + model/implementation correspondence', design='6 C01'),
+ 'C11': dict(
+   text='Coq theorems (Properties/C11.v) over a reference semantics that shares nothing with cpppo or greenery: Brzozowski derivatives are proved to compute the '
+        'standard inductive language semantics (nullable, derivative, non-emptiness), and the reference run is proved to split every input into the longest prefix '
+        'all of whose non-empty prefixes can still be extended to a sentence and the untouched rest, accepting iff that prefix is non-empty and a sentence.  Tie: '
+        'every expression up to an operator bound over {a,b,.,[ab],[^a],[^ab]} with * + ? {m,n} | on every string up to a length bound through cpppo.regex, and '
+        'bytes machines (whole and at every 2-way chunking), compared with the extracted reference; a sample of the same machine graphs is run through the '
+        'engine interpreter model (Model/Engine.v).',
+   note='Trusted: Coq kernel; extraction + driver; printer from the expression AST to regex text (props/c11.py).  greenery (regex -> DFA) is third-party and is exercised, '
+        'not verified.  Two recorded known findings: bytes machines are not faithful on multi-byte *input* symbols (lead byte consumed then NonTerminal; "." and '
+        'negated classes match one byte).  The quick tier samples expressions/strings, the thorough tier is exhaustive up to the stated bounds.',
+   technique='Coq proof (derivatives = standard semantics; longest-viable-prefix run) + exhaustive small-scope correspondence', design='6 C11'),
 }
 PENDING = {}
 ALL = ['C%02d' % i for i in range(1, 21)]
